@@ -42,6 +42,8 @@ pub enum Via {
     /// the path is a string constant declared in the file itself and the
     /// call names the constant
     ConstPath,
+    /// the call stands in a directive that emits nothing (`#assert f(..) >= 0`)
+    Assert,
 }
 
 #[derive(Clone, Debug, PartialEq, Eq, Serialize, Deserialize)]
@@ -59,6 +61,9 @@ pub struct CFile {
     pub path: String,
     pub once: bool,
     pub items: Vec<Item>,
+    /// where the `#once` line stands among the items (0 = first line)
+    #[serde(default)]
+    pub once_pos: usize,
 }
 
 #[derive(Clone, Debug, PartialEq, Eq, Serialize, Deserialize)]
@@ -120,10 +125,11 @@ impl Case {
         let mut texts: Vec<(String, String)> = Vec::new();
         for f in &self.files {
             let mut t = String::new();
-            if f.once {
-                t.push_str("#once\n");
-            }
-            for item in &f.items {
+            let once_at = if f.once { Some(f.once_pos.min(f.items.len())) } else { None };
+            for (item_index, item) in f.items.iter().enumerate() {
+                if once_at == Some(item_index) {
+                    t.push_str("#once\n");
+                }
                 match item {
                     Item::Marker(b) => t.push_str(&format!("#d8 {}\n", b)),
                     Item::Include(sp) => t.push_str(&format!("#include \"{}\"\n", esc(sp))),
@@ -149,6 +155,7 @@ impl Case {
                         counter += 1;
                         match via {
                             Via::Direct => t.push_str(&format!("#d {}\n", call)),
+                            Via::Assert => t.push_str(&format!("#assert sizeof({}) >= 0\n", call)),
                             Via::ConstPath => {
                                 let quoted = format!("\"{}\"", esc(spelling));
                                 t.push_str(&format!("path{} = {}\n", k, quoted));
@@ -177,6 +184,9 @@ impl Case {
                         }
                     }
                 }
+            }
+            if once_at == Some(f.items.len()) {
+                t.push_str("#once\n");
             }
             texts.push((f.path.clone(), t));
         }
@@ -230,8 +240,9 @@ pub fn draw_spelling(rng: &mut Rng, from: &str, target: &str, is_data: bool, std
     let ext = if is_data { "bin" } else { "asm" };
     // `clean` cases use only spellings the property requires to work, so
     // that deep graphs (chains, diamonds, cycles, #once) are actually expanded
-    let style = if clean { *rng.pick(&[0usize, 0, 0, 0, 30, 38, 46, 54, 60, 74, 100, 101, 102]) } else { rng.below(108) };
+    let style = if clean { *rng.pick(&[0usize, 0, 0, 0, 30, 38, 46, 54, 60, 74, 100, 101, 102, 108]) } else { rng.below(109) };
     match style {
+        108 => format!("\\{}", target.replace('/', "\\")),
         104 => format!("<std>//{}", target),
         105 => format!("<std>/\\{}", target),
         106 => format!("<std>///{}", target),
@@ -292,7 +303,7 @@ pub fn draw_case(rng: &mut Rng) -> Case {
     let names = ["main", "a", "b", "c", "d", "e", "f"];
     for i in 0..nfiles {
         let dir = if i == 0 { *rng.pick(&["", "", "", "src/", "a/b/"]) } else { *rng.pick(&dirs) };
-        files.push(CFile { path: format!("{}{}.asm", dir, names[i]), once: rng.chance(1, 3), items: vec![] });
+        files.push(CFile { path: format!("{}{}.asm", dir, names[i]), once: rng.chance(1, 3), items: vec![], once_pos: 0 });
     }
     // data files
     let ndata = rng.range(0, 3);
@@ -340,13 +351,13 @@ pub fn draw_case(rng: &mut Rng) -> Case {
     let mut defs_path = None;
     if want_defs {
         let p = format!("{}defs.asm", rng.pick(&["", "lib/", "inc/", "lib/deep/", "a/"]));
-        files.push(CFile { path: p.clone(), once: true, items: vec![] });
+        files.push(CFile { path: p.clone(), once: true, items: vec![], once_pos: 0 });
         defs_path = Some(p);
     }
     let nsrc = nfiles;
     if std_dir {
-        files.push(CFile { path: "<std>/x.asm".to_string(), once: false, items: vec![Item::Marker(0xD1)] });
-        files.push(CFile { path: "<std>/cpu/6502.asm".to_string(), once: false, items: vec![Item::Marker(0xD4)] });
+        files.push(CFile { path: "<std>/x.asm".to_string(), once: false, items: vec![Item::Marker(0xD1)], once_pos: 0 });
+        files.push(CFile { path: "<std>/cpu/6502.asm".to_string(), once: false, items: vec![Item::Marker(0xD4)], once_pos: 0 });
     }
     // items: markers, include edges, inclusion-function calls
     let mut marker = 0x10u8;
@@ -390,9 +401,9 @@ pub fn draw_case(rng: &mut Rng) -> Case {
                         Some("bits") => IncKind::Incbinstr,
                         _ => IncKind::Inchexstr,
                     };
-                    let via = if defs_path.is_some() { *rng.pick(&[Via::Direct, Via::Rule, Via::Fn, Via::AsmBlock, Via::Fn, Via::Arg, Via::NestedArg, Via::ConstPath]) } else { *rng.pick(&[Via::Direct, Via::Direct, Via::ConstPath]) };
+                    let via = if defs_path.is_some() { *rng.pick(&[Via::Direct, Via::Rule, Via::Fn, Via::AsmBlock, Via::Fn, Via::Arg, Via::NestedArg, Via::ConstPath, Via::Assert]) } else { *rng.pick(&[Via::Direct, Via::Direct, Via::ConstPath, Via::Assert]) };
                     let container = match via {
-                        Via::Direct | Via::Arg | Via::NestedArg | Via::ConstPath => files[i].path.clone(),
+                        Via::Direct | Via::Arg | Via::NestedArg | Via::ConstPath | Via::Assert => files[i].path.clone(),
                         _ => defs_path.clone().unwrap(),
                     };
                     let spelling = draw_spelling(rng, &container, &data[d].path, true, std_dir, clean);
@@ -419,6 +430,29 @@ pub fn draw_case(rng: &mut Rng) -> Case {
             }
         }
         files[i].items.extend(items);
+    }
+    for f in files.iter_mut() {
+        if f.once && rng.chance(1, 3) {
+            f.once_pos = rng.below(f.items.len() + 1);
+        }
+    }
+    // a file whose name differs from another one's only in letter case
+    // (distinct files on a case-sensitive disk), included next to it
+    if nsrc >= 2 && rng.chance(1, 12) {
+        let victim = rng.range(1, nsrc - 1);
+        let p = files[victim].path.clone();
+        let twin = match p.rfind('/') {
+            Some(i) => format!("{}{}{}", &p[..i + 1], p[i + 1..i + 2].to_uppercase(), &p[i + 2..]),
+            None => format!("{}{}", p[..1].to_uppercase(), &p[1..]),
+        };
+        if twin != p && !files.iter().any(|f| f.path == twin) {
+            files.push(CFile { path: twin.clone(), once: rng.chance(1, 3), items: vec![Item::Marker(0x77)], once_pos: 0 });
+            let from = files[0].path.clone();
+            let sp1 = rel_spelling(&from, &twin);
+            let sp2 = rel_spelling(&from, &p);
+            files[0].items.push(Item::Include(sp1));
+            files[0].items.push(Item::Include(sp2));
+        }
     }
     // roots
     let mut roots = vec![files[0].path.clone()];
@@ -455,10 +489,10 @@ pub fn range_case(kind: IncKind, n: usize, start: Option<usize>, len: Option<usi
         IncKind::Inchexstr => (0..n).map(|k| b"a5c3e7"[k % 6]).collect(),
     };
     let dpath = "lib/data.dat".to_string();
-    let mut files = vec![CFile { path: "main.asm".to_string(), once: false, items: vec![] }];
+    let mut files = vec![CFile { path: "main.asm".to_string(), once: false, items: vec![], once_pos: 0 }];
     let mut defs_path = None;
     if !matches!(via, Via::Direct | Via::ConstPath) {
-        files.push(CFile { path: "lib/defs.asm".to_string(), once: true, items: vec![] });
+        files.push(CFile { path: "lib/defs.asm".to_string(), once: true, items: vec![], once_pos: 0 });
         defs_path = Some("lib/defs.asm".to_string());
         files[0].items.push(Item::Include("lib/defs.asm".to_string()));
     }
@@ -587,7 +621,7 @@ fn short_expected(e: &Expected) -> String {
 
 fn first_error(stderr: &[u8]) -> String {
     let t = crate::job::strip_ansi(&String::from_utf8_lossy(stderr));
-    t.lines().find(|l| l.starts_with("error: ")).unwrap_or("").to_string()
+    t.lines().map(|l| l.trim_start().trim_start_matches("+ ")).find(|l| l.starts_with("error: ")).unwrap_or("").to_string()
 }
 
 fn case_replay(ctx: &Ctx, v: Violation, case: &Case, plan: SimPlan) -> Replay {
@@ -600,7 +634,9 @@ fn exec_case(ctx: &mut Ctx, case: &Case, verif: &str, out: &mut Vec<Replay>) {
     let job = case.render();
     let faults: Vec<Fault> = case.fault.iter().cloned().collect();
     let plan = SimPlan::single(job.clone(), faults, &[0u8; 16], false, false);
+    ctx.pending_c14 = Some(case.clone());
     let res = ctx.exec(&plan, "C14");
+    ctx.pending_c14 = None;
     let rec = &res.runs[0].record;
     ctx.stats.inc("evaluations");
     let m = model14::run(case, crate::job::std_file_names());
